@@ -67,11 +67,15 @@ def main(argv):
         seed, tier = int(rec.get("seed", seed)), rec.get("tier", tier)
     common.assert_pacti_from_repo()
     import props
-    mod = importlib.import_module(f"props.{prop.lower()}")
     ctx = props.Ctx(prop, tier, seed, replay)
     t0 = time.time()
     try:
+        mod = importlib.import_module(f"props.{prop.lower()}")
         mod.check(ctx)
+    except SystemExit as e:
+        # helper modules fail closed with SystemExit when the source no longer has the shape they mirror, or a model no longer
+        # builds: that is a broken correspondence of this property (reported as such), never a silent exit
+        ctx.broke("correspondence:harness", "a harness module stopped: " + str(e)[:1500])
     except Exception:  # noqa: BLE001 a crash of the machinery must not look like a pass
         traceback.print_exc()
         ctx.machinery_failure("harness crashed: " + traceback.format_exc()[-1500:])
